@@ -41,6 +41,14 @@ class NormForm:
         self._ret_cache: dict = {}
         self._stack: set = set()
         self.cqt = prog.try_cls("utils.entities.ColumnQualifierTuple")
+        # the provider's session map (names stored there were registered from normalised Column objects)
+        self._session_attr = None
+        P = prog.try_cls("core.metadata_provider.MetaDataProvider")
+        reg = P.methods.get("register_session_metadata") if P is not None else None
+        if reg is not None:
+            for n in ast.walk(reg.node):
+                if isinstance(n, ast.Subscript) and isinstance(n.ctx, ast.Store) and isinstance(n.value, ast.Attribute) and isinstance(n.value.value, ast.Name) and n.value.value.id == "self":
+                    self._session_attr = n.value.attr
 
     def is_norm_call(self, e: ast.AST, fn: Optional[Fn]) -> bool:
         return isinstance(e, ast.Call) and self.norm is not None and fn is not None and self.norm in self.prog.resolve_call(e, fn)
@@ -184,7 +192,7 @@ class NormForm:
                 if isinstance(k, str):
                     out |= self.kwarg_states(fn, k, elem=True, idx=idx)
                 return out or {UNK}
-        if isinstance(it, ast.Subscript) and "_session_metadata" in u(it):
+        if isinstance(it, ast.Subscript) and self._session_attr is not None and any(isinstance(k, ast.Attribute) and k.attr == self._session_attr for k in ast.walk(it)):
             return {PROV}
         if isinstance(it, (ast.Tuple, ast.List)):
             out = set()
